@@ -159,3 +159,94 @@ func VerifC02_ConnectionDeadlines() {
 	}
 	sym.Reach("done")
 }
+
+// ---- the connection leaf: Close aborts the operation in progress ----
+// The client's stop path relies on it: the stop request closes the active
+// connection so that a send blocked mid-write or an ACK read from a silent
+// upstream returns at once instead of at its deadline (minutes).
+
+type verifSilentConn struct {
+	verifDeadlineConn
+	closed   chan struct{}
+	isClosed bool
+}
+
+func (c *verifSilentConn) block(deadline time.Time) error {
+	wait := time.Until(deadline)
+	if deadline.IsZero() {
+		wait = time.Hour
+	}
+	select {
+	case <-c.closed:
+		return errors.New("use of closed network connection (scripted)")
+	case <-time.After(wait):
+		return errors.New("i/o timeout (scripted)")
+	}
+}
+func (c *verifSilentConn) Read(p []byte) (int, error)  { return 0, c.block(c.readDeadline) }
+func (c *verifSilentConn) Write(p []byte) (int, error) { return 0, c.block(c.writeDeadline) }
+func (c *verifSilentConn) Close() error {
+	if !c.isClosed {
+		c.isClosed = true
+		close(c.closed)
+	}
+	return nil
+}
+
+var verifCurSilent *verifSilentConn
+
+func verifStubDecodeSilent(d *msgpack.Decoder, v ...interface{}) error {
+	_, err := verifCurSilent.Read(make([]byte, 1))
+	return err
+}
+
+// VerifC18_CloseUnblocksPendingOperation: one operation (ACK read, chunk send,
+// ping - symbolic) hangs on a silent upstream under a deadline of 10 s to 2
+// min; after 1 s another goroutine calls Close (what the stop request does):
+// Close returns at once and the hung operation returns at once with an error -
+// neither waits for the deadline.
+//
+//verif:native off
+//verif:preempt 1
+//verif:clock virtual
+//verif:stub (*github.com/vmihailenco/msgpack/v4.Decoder).Decode verifStubDecodeSilent
+//verif:reach done
+func VerifC18_CloseUnblocksPendingOperation() {
+	conn := &verifSilentConn{closed: make(chan struct{})}
+	verifCurSilent = conn
+	internalPingMessage = []byte{0x93, 0xa1, 'p', 0x90, 0x80}
+	fconn := &forwardConnection{logger: logger.Root(), socket: conn}
+	deadline := time.Now().Add([]time.Duration{10 * time.Second, 120 * time.Second}[sym.Choice("deadline", 2)])
+	op := sym.Choice("op", 3)
+	finished := make(chan error, 1)
+	go func() {
+		var err error
+		switch op {
+		case 0:
+			_, err = fconn.ReadChunkAck(deadline)
+		case 1:
+			err = fconn.SendChunk(base.LogChunk{ID: "c", Data: []byte{1, 2, 3}}, deadline)
+		case 2:
+			err = fconn.SendPing(deadline)
+		}
+		finished <- err
+	}()
+	time.Sleep(time.Second) // the operation is hanging now
+	t0 := sym.VirtualNow()
+	fconn.Close()
+	sym.Assert(sym.VirtualNow()-t0 < int(time.Second), "Close returns at once while an operation is hanging on the connection")
+	err := <-finished
+	sym.Assert(sym.VirtualNow()-t0 < int(time.Second), "closing the connection aborts the hanging operation at once, not at its deadline")
+	sym.Assert(err != nil, "the aborted operation reports an error")
+	sym.Reach("done")
+}
+
+// VerifC02_CloseUnblocksPendingOperation: the same leaf read for C02 (the scripted
+// connection of the client scenario assumes exactly this contract of Close).
+//
+//verif:native off
+//verif:preempt 1
+//verif:clock virtual
+//verif:stub (*github.com/vmihailenco/msgpack/v4.Decoder).Decode verifStubDecodeSilent
+//verif:reach done
+func VerifC02_CloseUnblocksPendingOperation() { VerifC18_CloseUnblocksPendingOperation() }
